@@ -334,8 +334,12 @@ func c16Trees() []histCase {
 	files["chains"] = chain + "@each(i in items)@if(i == 99)x@elseif(i == 98)y@elseif(i == 97)z@elseif(i == 96)w@else({{ i }})@end@end"
 	files["hello"] = "Hello, {{ name }}!"
 	files["greet"] = "<h1>@component(\"hello\");</h1>@each(i in items)@component(\"hello\");@end"
+	// literals whose entries are written in their short forms - {name} for {name: name}, a trailing comma, quoted keys,
+	// one-element arrays of a variable: what they hold is the data of the render at hand
+	files["shorthand"] = "{{ o = {name, flag, n: 3}; o.name }}|{{ {name}.name }}|{{ {items}.items.len() }}|@each(i in items){{ {i}.i }},@end|{{ [name] }}|{{ {a: {name}}.a.name }}|{{ {\"name\": name, }.name }}|{{ {flag,}.flag ? 'y' : 'n' }}"
 	d2 := specData(map[string]any{"name": "Other", "items": []int{7}, "flag": false})
 	ops := []histOp{
+		{Kind: "string", Name: "shorthand", Data: d}, {Kind: "string", Name: "shorthand", Data: d2}, {Kind: "response", Name: "shorthand", Data: d}, {Kind: "evalfile", Name: "shorthand", Data: d2},
 		{Kind: "string", Name: "home", Data: d}, {Kind: "string", Name: "plain", Data: d}, {Kind: "string", Name: "failing", Data: d},
 		{Kind: "string", Name: "failing2", Data: d}, {Kind: "string", Name: "nosuch", Data: d}, {Kind: "response", Name: "home", Data: d},
 		{Kind: "response", Name: "failing", Data: d}, {Kind: "response", Name: "inloop", Data: d}, {Kind: "response", Name: "nosuch", Data: nil},
